@@ -586,6 +586,11 @@ def finish_item():
             if isinstance(st.exc, ast.Call) and ast.unparse(st.exc.func) == "TaskNonZeroExit":
                 return "[3%N]"
             raise Unsupported("raise outside the supported fragment: %s" % src)
+        if isinstance(st, ast.Try) and not st.orelse and not st.finalbody and st.handlers \
+                and all(ast.unparse(h.type) == "OSError" and len(h.body) == 1 and isinstance(h.body[0], ast.Raise) for h in st.handlers):
+            # `try: <writes> except OSError: raise TaskFailed(...)`: the effects are those of the body; a write that fails
+            # (the task removed its own output directory) turns the execution into a failed one and is outside the model
+            return block(list(st.body) + rest)
         if isinstance(st, ast.If) and not st.orelse:
             then = block(st.body)
             if then.endswith("[3%N]") and then.count("::") == 0:
